@@ -130,6 +130,9 @@ def run(rep, tier):
     if meta:
         rep.sample({'circuit': meta[0][0], 'shot': meta[0][1]})
 
+    # ---------- A2. `stim sample` with several 1024-shot batches and the reference-sample switches
+    cli_batches(rep, svh, rng, gates, names, 14 if quick else 300)
+
     # ---------- B. unbiased and uniform on the specification's affine space (noiseless circuits)
     NB = 25 if quick else 400
     uniformity(rep, svh, rng, gates, names, NB, 4096)
@@ -188,6 +191,62 @@ def uniformity(rep, svh, rng, gates, names, count, N):
                 if r and abs(c - exp) > 7 * sd + 1:
                     rep.violation('sample_batch_measurements<%d>' % W, 'biased', text,
                                   'record %s appeared %d times in %d shots, expected %.0f' % (x, c, N, exp))
+
+
+def cli_batches(rep, svh, rng, gates, names, count):
+    """the command line sampler works in batches of 1024 shots; --skip_loop_folding changes how the reference sample is computed,
+    --skip_reference_sample replaces it by zeros (then the output is the flips relative to a reference: XOR-ing a noiseless
+    reference sample back must give a possible outcome)"""
+    spec_in, cases = [], []
+    for _ in range(count):
+        noisy = rng.random() < 0.4
+        prof = gencirc.Profile(noise=noisy, measure_noise=noisy, heralded=noisy, len_range=(3, 14), repeat=True)
+        n, body = gencirc.gen_circuit(rng, gates, prof)
+        nq = max(stimtext.num_qubits(body), 1)
+        ir = stimtext.to_spec(stimtext.flatten(body), names, nsweep=0, noise=True)
+        if ir.num_meas == 0:
+            continue
+        spec_in.append(stimtext.spec_cmd(nq, ir))
+        cases.append((body, ir))
+    spec_out = core.run_svm('\n'.join(spec_in) + '\n', timeout=3000) if spec_in else []
+    cons_in, meta = [], []
+    for (body, ir), so in zip(cases, spec_out):
+        if so.startswith('EXN'):
+            continue
+        sp = stimtext.parse_spec_out(so)
+        text = stimtext.circuit_text(body)
+        shots = rng.choice([1025, 2100, 3073])
+        flags = [f for f in ('--skip_reference_sample', '--skip_loop_folding') if rng.random() < 0.4]
+        rc, out, err = core.run_stim(['sample', '--shots', str(shots), '--seed', str(rng.randrange(1 << 30))] + flags, text.encode())
+        cell = {'circuit': text, 'command': 'stim sample --shots %d %s' % (shots, ' '.join(flags))}
+        rep.count(('c02-cli', text, shots, tuple(flags)), nontrivial=True)
+        if rc != 0:
+            rep.violation('stim sample', 'reject-valid', cell, err.decode()[-300:])
+            continue
+        lines = [l for l in out.decode().split('\n')]
+        if lines and lines[-1] == '':
+            lines.pop()
+        nm = len(sp['rec'])
+        if len(lines) != shots or any(len(l) != nm for l in lines):
+            rep.violation('stim sample', 'wrong-result', cell, 'expected %d lines of %d bits, got %d lines' % (shots, nm, len(lines)))
+            continue
+        ref = None
+        if '--skip_reference_sample' in flags:
+            ref = svh.request('tsample', [64, 0, 0, 'reference'], text)[0][4:]
+        picks = sorted(set([0, 1, 1022, 1023, 1024, 1025, 2047, 2048, 2049, shots - 1] + [rng.randrange(shots) for _ in range(20)]))
+        for k in picks:
+            if k >= shots:
+                continue
+            r = lines[k]
+            if ref is not None:
+                r = ''.join('1' if (a == '1') != (b == '1') else '0' for a, b in zip(r, ref))
+            eqs = ['%s=%s' % (c01.fmt_form(f), b) for f, b in zip(sp['rec'], r)]
+            cons_in.append('consistent %d ; %s' % (sp['ncoins'], ' ; '.join(eqs)))
+            meta.append((cell, k, r))
+    res = core.run_svm('\n'.join(cons_in) + '\n', timeout=3000) if cons_in else []
+    for (cell, k, r), verdict in zip(meta, res):
+        if verdict != '1':
+            rep.violation('stim sample', 'wrong-result', cell, 'shot %d is not an outcome the circuit can produce' % k, None, r)
 
 
 def deterministic_paths(rep, svh, rng, gates, count, quick):
